@@ -31,7 +31,7 @@ var Classes = map[string][]string{
 	"%BW":     {"a", "foo", "é", "你好", "x1", "a/b.c", "a=b", "-o", "1.5", "\\", "@", "%", "a,b"},
 	"%BWB":    {"a", "b1", "é"},
 	"%SQ":     {"'a'", "''", "'a''b'", "'a b\nc'", "'é #|&'"},
-	"%DQ":     {`"a"`, `""`, `"\n\t"`, `"\x41é\U0001F600"`, `"a\"b"`, `"\^A\c?\101"`, `"é 你"`, `"a\\"`},
+	"%DQ":     {`"a"`, `""`, `"\n\t"`, `"\x41é\U0001F600"`, `"a\"b"`, `"\^A\c?\101"`, `"é 你"`, `"a\\"`, `"\U000d8123"`},
 	"%VAR":    {"$x", "$@x", "$x:y", "$'a b'", `$"a"`, "$é", "$x~", "$-", "$_"},
 	"%WILD":   {"*", "**", "?"},
 	"%EMAP":   {"[&]", "[& ]", "[ &]", "[\n&\n]"},
